@@ -19,6 +19,11 @@ def fn(module, qualname):
     return node
 
 
+def module(name):
+    """the parsed module (ast.Module) of the real source"""
+    return source().modules[name].tree
+
+
 def opcode_names_in(node):
     """OpCode.X names mentioned in an expression"""
     return [n.attr for n in ast.walk(node) if isinstance(n, ast.Attribute) and isinstance(n.value, ast.Name) and n.value.id == "OpCode"]
